@@ -87,7 +87,7 @@ func NewUniverse() *Universe {
 		errCodes: map[string]int{}, strLits: map[string]string{}, wfDone: map[string]bool{}}
 	u.decl("Str", "(declare-sort Str 0)")
 	u.decl("str_len", "(declare-fun str_len (Str) Int)")
-	u.decl("str_len_ax", "(assert (forall ((s Str)) (! (>= (str_len s) 0) :pattern ((str_len s)))))")
+	u.decl("str_len_ax", "(assert (forall ((s Str)) (! (and (>= (str_len s) 0) (<= (str_len s) 9223372036854775807)) :pattern ((str_len s)))))")
 	u.decl("tdiv", "(define-fun tdiv ((a Int) (b Int)) Int (ite (>= a 0) (ite (> b 0) (div a b) (- (div a (- b)))) (ite (> b 0) (- (div (- a) b)) (div (- a) (- b)))))")
 	u.decl("tmod", "(define-fun tmod ((a Int) (b Int)) Int (- a (* b (tdiv a b))))")
 	u.decl("iabs", "(define-fun iabs ((a Int)) Int (ite (>= a 0) a (- a)))")
@@ -625,7 +625,7 @@ func (u *Universe) wf(v Val, depth int) string {
 				fixed = tt.Len()
 			}
 		}
-		cs := []string{fmt.Sprintf("(<= 0 %s)", slLen(v)), fmt.Sprintf("(<= %s %s)", slLen(v), slCap(v))}
+		cs := []string{fmt.Sprintf("(<= 0 %s)", slLen(v)), fmt.Sprintf("(<= %s %s)", slLen(v), slCap(v)), fmt.Sprintf("(<= %s 9223372036854775807)", slCap(v))}
 		if fixed >= 0 {
 			cs = append(cs, fmt.Sprintf("(= %s %d)", slLen(v), fixed))
 		}
